@@ -358,7 +358,24 @@ pub const IO_KINDS: [std::io::ErrorKind; 7] = [
 fn res_to_result(r: Res, salt: u64) -> Result<(), IoStreamError> {
     match r {
         Res::Ok => Ok(()),
-        Res::Validation => Err(IoStreamError::Validation(ValidationError::invalid("scripted validation error"))),
+        Res::Validation => {
+            // validation messages quote user-chosen field names: any length, any script (characters of 1-4
+            // bytes, so that every byte offset falls inside a character for some message)
+            let h = detsim::rng::mix(salt, 0x77);
+            let msg = if h % 3 == 0 {
+                "scripted validation error".to_string()
+            } else {
+                let mut m = String::from("scripted validation error for field ");
+                let len = 200 + (h >> 8) % 900;
+                let mut i = h >> 20;
+                while (m.len() as u64) < len {
+                    m.push(['a', '\u{e9}', '\u{4e16}', '\u{1F600}', ' '][(i % 5) as usize]);
+                    i = i / 5 + 7 * (m.len() as u64);
+                }
+                m
+            };
+            Err(IoStreamError::Validation(ValidationError::invalid(msg)))
+        }
         Res::Io => {
             let kind = IO_KINDS[(detsim::rng::mix(salt, 0x10) % IO_KINDS.len() as u64) as usize];
             Err(IoStreamError::Io(std::io::Error::new(kind, "scripted io error")))
